@@ -493,7 +493,7 @@ def run_invalid_clean_producer(ctx, rng, n):
     items = []
     for k in range(n):
         sc = dyndep_scenario(rng, "C11c-%d-%d" % (ctx.seed, k), static=False, respell=False)
-        scan = next((s_ for s_ in sc["stmts"] if s_["kind"] == "scan" and s_["outs"][0] == "dd/x.dd"), None)
+        scan = next((s_ for s_ in sc["stmts"] if s_["kind"] == "scan" and "dd/x.dd" in s_["outs"] + s_["iouts"]), None)
         if scan is None:
             continue
         ddp = "dd/x.dd"
